@@ -3,6 +3,7 @@ import SC.Proofs.Utf8Thy
 import SC.Proofs.RIndex
 import SC.Proofs.RCountByte
 import SC.Proofs.RLastIndex
+import SC.Proofs.RIndexAny6
 /-!
 # C06 — total and memory-safe on arbitrary bytes
 
@@ -52,6 +53,32 @@ theorem lastIndex_total (cfg : A.Cfg) (s sub : Bytes) :
     A.LastIndex cfg s sub ≠ A.fault ∧ A.LastIndex cfg s sub ≠ A.nofuel ∧ -1 ≤ A.LastIndex cfg s sub ∧ A.LastIndex cfg s sub ≤ s.length := by
   rw [A.LastIndex_eq]
   have := spec_lastIndex_in_range s sub
+  refine ⟨?_, ?_, this.1, this.2⟩ <;> simp only [A.fault, A.nofuel] <;> omega
+
+theorem spec_indexAny_in_range (s cs : Bytes) : -1 ≤ S.indexAny s cs ∧ S.indexAny s cs ≤ s.length := by
+  unfold S.indexAny
+  simp only []
+  cases (S.fruns s).findIdx? (fun x => (S.fruns cs).contains x) with
+  | none => simp
+  | some k => simp; exact offAt_le s k
+theorem spec_lastIndexAny_in_range (s cs : Bytes) : -1 ≤ S.lastIndexAny s cs ∧ S.lastIndexAny s cs ≤ s.length := by
+  unfold S.lastIndexAny
+  simp only []
+  cases (S.fruns s).reverse.findIdx? (fun x => (S.fruns cs).contains x) with
+  | none => simp
+  | some k => simp; exact offAt_le s _
+
+/-- `IndexAny` / `LastIndexAny` never panic or hang and stay in range -/
+theorem indexAny_total (cfg : A.Cfg) (s cs : Bytes) :
+    A.IndexAny cfg s cs ≠ A.fault ∧ A.IndexAny cfg s cs ≠ A.nofuel ∧ -1 ≤ A.IndexAny cfg s cs ∧ A.IndexAny cfg s cs ≤ s.length := by
+  rw [A.IndexAny_eq]
+  have := spec_indexAny_in_range s cs
+  refine ⟨?_, ?_, this.1, this.2⟩ <;> simp only [A.fault, A.nofuel] <;> omega
+theorem lastIndexAny_total (cfg : A.Cfg) (s cs : Bytes) :
+    A.LastIndexAny cfg s cs ≠ A.fault ∧ A.LastIndexAny cfg s cs ≠ A.nofuel ∧ -1 ≤ A.LastIndexAny cfg s cs ∧
+      A.LastIndexAny cfg s cs ≤ s.length := by
+  rw [A.LastIndexAny_eq]
+  have := spec_lastIndexAny_in_range s cs
   refine ⟨?_, ?_, this.1, this.2⟩ <;> simp only [A.fault, A.nofuel] <;> omega
 
 example : A.Count {} [0xFF, 0xFF] [0xFF, 0xFF] = 1 ∧ A.Count {pkg := .byt} [0xFF, 0xFF] [0xFF, 0xFF] = 1 := by decide +kernel
